@@ -3,7 +3,8 @@ import PyRatesModel.Net.Eval
 # C01 — the generated vector field equals the model the user wrote
 
 Specification: `Net.IsSolution` (Net/Syntax.lean).  Executable model: `Net.solve` (Net/Eval.lean), whose every answer is
-validated by `checkSolution`.  Property theorems only; mechanism lemmas of the staged compiler (edge grouping, weight
+validated by `checkSolution`; `C01_valOf_unique` shows that the value the evaluator resolves for a variable is its value in *every*
+solution (uniqueness wherever resolution succeeds).  Property theorems only; mechanism lemmas of the staged compiler (edge grouping, weight
 matrix, labels, ordering of updates) are in `Props/C01Mech.lean`.
 -/
 namespace PyRates.Net
@@ -50,5 +51,124 @@ theorem C01_solve_sound (I : Interp) (c : Circuit) (ext : Path → List Rat) (σ
     subst h3
     exact ⟨(C01_check_iff I c ext σ _).mp hc, h4.symm⟩
   · cases h2
+
+/-! ## uniqueness -/
+
+/-- partial evaluation agrees with total evaluation in every environment that extends the partial one -/
+theorem evalOpt_eval (I : Interp) (ρo : String → Option Rat) (ρ : String → Rat) (h : ∀ x w, ρo x = some w → ρ x = w)
+    (e : Expr) (v : Rat) (hv : evalOpt I ρo e = some v) : eval I ρ e = v := by
+  induction e generalizing v with
+  | num q => simp [evalOpt] at hv; simp [eval, hv]
+  | var x => simp only [evalOpt] at hv; exact h x v hv
+  | add a b iha ihb | sub a b iha ihb | mul a b iha ihb =>
+    simp only [evalOpt, Option.bind_eq_bind, Option.bind_eq_some_iff, Option.pure_def, Option.some.injEq] at hv
+    obtain ⟨va, ha, vb, hb, rfl⟩ := hv
+    simp only [eval, iha va ha, ihb vb hb]
+  | neg a ih | pow a k ih =>
+    simp only [evalOpt, Option.bind_eq_bind, Option.bind_eq_some_iff, Option.pure_def, Option.some.injEq] at hv
+    obtain ⟨va, ha, rfl⟩ := hv
+    simp only [eval, ih va ha]
+  | call1 f a ih =>
+    simp only [evalOpt, Option.bind_eq_bind, Option.bind_eq_some_iff, Option.pure_def, Option.some.injEq] at hv
+    obtain ⟨va, ha, rfl⟩ := hv
+    simp only [eval, ih va ha]
+  | call2 f a b iha ihb =>
+    simp only [evalOpt, Option.bind_eq_bind, Option.bind_eq_some_iff, Option.pure_def, Option.some.injEq] at hv
+    obtain ⟨va, ha, vb, hb, rfl⟩ := hv
+    simp only [eval, iha va ha, ihb vb hb]
+
+theorem foldl_sumOpt_none (l : List (Option Rat)) :
+    l.foldl (fun acc x => match acc, x with | some a, some b => some (a + b) | _, _ => none) none = none := by
+  induction l with
+  | nil => rfl
+  | cons x r ih => simpa [List.foldl] using ih
+
+/-- a successful partial sum is the sum of values that agree with any assignment extending the partial one -/
+theorem sumOpt_eq {α} (l : List α) (f : α → Option Rat) (g : α → Rat) (hfg : ∀ a ∈ l, ∀ w, f a = some w → g a = w)
+    (s : Rat) (hs : sumOpt (l.map f) = some s) : (l.map g).sum = s := by
+  unfold sumOpt at hs
+  suffices H : ∀ (acc : Rat) (s : Rat),
+      (l.map f).foldl (fun acc x => match acc, x with | some a, some b => some (a + b) | _, _ => none) (some acc) = some s →
+      acc + (l.map g).sum = s by
+    have := H 0 s hs
+    rw [Rat.zero_add] at this
+    exact this
+  clear hs
+  induction l with
+  | nil => intro acc s h; simp at h; simp [h, Rat.add_zero]
+  | cons a r ih =>
+    intro acc s h
+    simp only [List.map_cons, List.foldl_cons] at h
+    cases hfa : f a with
+    | none => rw [hfa] at h; simp only at h; rw [foldl_sumOpt_none] at h; cases h
+    | some w =>
+      rw [hfa] at h
+      have hg : g a = w := hfg a (by simp) w hfa
+      have := ih (fun b hb => hfg b (by simp [hb])) (acc + w) s h
+      simp only [List.map_cons, List.sum_cons, hg]
+      grind
+
+/-- **Uniqueness.**  Whatever value the evaluator resolves for a variable is the value of that variable in *every* solution of the
+user's equations: where resolution succeeds the specification has exactly one solution. -/
+theorem C01_valOf_unique (I : Interp) (c : Circuit) (ext : Path → List Rat) (σ ρ : Path → Rat) (hsol : IsSolution I c ext σ ρ)
+    (fuel : Nat) (p : Path) (v : Rat) (hv : valOf I c ext σ fuel p = some v) : ρ p = v := by
+  induction fuel generalizing p v with
+  | zero => simp [valOf] at hv
+  | succ fuel ih =>
+    simp only [valOf, Option.bind_eq_bind, Option.bind_eq_some_iff] at hv
+    obtain ⟨n, hn, o, ho, d, hd, hk⟩ := hv
+    have hnm : n ∈ c.nodes := List.mem_of_find?_eq_some hn
+    have hnp : n.path = p.node := by have := List.find?_some hn; simpa using this
+    have hom : o ∈ n.ops := List.mem_of_find?_eq_some ho
+    have hop : o.name = p.op := by have := List.find?_some ho; simpa using this
+    have hdm : d ∈ o.vars := List.mem_of_find?_eq_some hd
+    have hdp : d.name = p.var := by have := List.find?_some hd; simpa using this
+    have hp : (⟨n.path, o.name, d.name⟩ : Path) = p := by cases p; simp_all
+    have hs := hsol n hnm o hom d hdm
+    simp only [hp] at hs
+    cases hkind : o.kindOf d with
+    | state =>
+      rw [hkind] at hk hs
+      simp only [Option.some.injEq] at hk
+      simp only at hs
+      rw [hs, hk]
+    | const =>
+      rw [hkind] at hk hs
+      simp only [Option.some.injEq] at hk
+      simp only at hs
+      rw [hs, hk]
+    | alg =>
+      rw [hkind] at hk hs
+      simp only [Option.bind_eq_bind, Option.bind_eq_some_iff] at hk
+      obtain ⟨e, he, hev⟩ := hk
+      simp only at hs
+      rw [hs e he]
+      apply evalOpt_eval I _ _ _ e.rhs v hev
+      intro x w hw
+      have := ih ⟨p.node, p.op, x⟩ w hw
+      rw [hnp, hop]; exact this
+    | input =>
+      rw [hkind] at hk hs
+      simp only at hs
+      rw [hs]
+      unfold inputValue
+      simp only at hk ⊢
+      split at hk
+      · rename_i hc
+        simp only [Option.some.injEq] at hk
+        simp [hc, hk]
+      · rename_i hc
+        simp only [Option.bind_eq_bind, Option.bind_eq_some_iff, Option.pure_def, Option.some.injEq] at hk
+        obtain ⟨a, ha, b, hb, rfl⟩ := hk
+        have hc' : ¬ ((n.feeders d.name).isEmpty && (c.edgesInto ⟨n.path, o.name, d.name⟩).isEmpty && (ext ⟨n.path, o.name, d.name⟩).isEmpty) = true := hc
+        simp only [hc', if_false, Bool.false_eq_true]
+        have e1 := sumOpt_eq (n.feeders d.name) (fun o' => valOf I c ext σ fuel ⟨n.path, o'.name, d.name⟩) (fun o' => ρ ⟨n.path, o'.name, d.name⟩)
+          (fun o' _ w hw => ih _ w hw) a ha
+        have e2 := sumOpt_eq (c.edgesInto ⟨n.path, o.name, d.name⟩) (fun e => (valOf I c ext σ fuel e.src).map (e.weight * ·)) (fun e => e.weight * ρ e.src)
+          (fun e _ w hw => by
+            simp only [Option.map_eq_some_iff] at hw
+            obtain ⟨u, hu, rfl⟩ := hw
+            rw [ih _ u hu]) b hb
+        rw [e1, e2]
 
 end PyRates.Net
